@@ -226,6 +226,10 @@ def replay_cex(pid, name, desc, cex, logdir):
         return None, rpath, "counterexample is a path through the lifted ACL gate (arbitrary ACL verdict); no native replay"
     if "ttls" in cex:
         return replay_cache(pid, name, desc, cex, logdir, rpath)
+    if "client" not in cex:
+        json.dump(dict(property=pid, obligation=name, claim=desc, counterexample=cex,
+                       how="re-run: /verif/check %s --only %s" % (pid, name)), open(rpath, "w"), indent=1)
+        return None, rpath, "counterexample is the solver's assignment for this obligation's symbolic inputs (see file); no native replay driver for this obligation"
     op = "metrics" if pid == "C20" else "allocate"
     json.dump(dict(property=pid, obligation=name, claim=desc, counterexample=cex, script=script_of(cex, op),
                    how="/verif/check %s --replay %s" % (pid, rpath)), open(rpath, "w"), indent=1)
